@@ -55,19 +55,21 @@ class ListV:
 class DictV:
     """local dict as has/val arrays. vkind in int|bool|name; nonzero: stored ints are never 0/None."""
 
-    def __init__(self, has, val, vkind='int', kkind='int'):
+    def __init__(self, has, val, vkind='int', kkind='int', ne=None):
         self.has, self.val, self.vkind, self.kkind = has, val, vkind, kkind
+        self._ne = ne if ne is not None else fresh('nonempty', B)
 
     def copy(self):
-        return DictV(self.has, self.val, self.vkind, self.kkind)
+        return DictV(self.has, self.val, self.vkind, self.kkind, self._ne)
 
 
 class SetV:
-    def __init__(self, has, kkind='int'):
+    def __init__(self, has, kkind='int', ne=None):
         self.has, self.kkind = has, kkind
+        self._ne = ne if ne is not None else fresh('nonempty', B)
 
     def copy(self):
-        return SetV(self.has, self.kkind)
+        return SetV(self.has, self.kkind, self._ne)
 
 
 class MgrV:
@@ -83,6 +85,13 @@ class ObjV:
     def __init__(self, cls, attrs=None):
         self.cls = cls
         self.attrs = attrs or {}
+
+
+class FieldV:
+    """alias of a manager's dict attribute (e.g. `levels = bdd.vars`)"""
+
+    def __init__(self, mkey, attr):
+        self.mkey, self.attr = mkey, attr
 
 
 class PyV:
@@ -116,11 +125,19 @@ def truth(v):
         return Not(v.none) if v.none is not None else BoolVal(True)
     if isinstance(v, ListV):
         return v.n > 0
+    if isinstance(v, (DictV, SetV)):
+        return nonempty(v)
     if isinstance(v, StrV):
         return BoolVal(bool(v.v))
     if isinstance(v, (MgrV, ObjV)):
         return BoolVal(True)
     raise Unsupported(f'truth of {type(v).__name__}')
+
+
+def nonempty(v):
+    """truth value of a dict/set: a ghost Boolean tied to membership by (has[k] -> nonempty); emptiness implies no
+    member. The witness direction (nonempty -> some member) is given by `next(iter(d))`."""
+    return v._ne
 
 
 class Raise:
@@ -190,6 +207,11 @@ class Exec:
 
     # ------------------------------------------------------------------ obligations
     def oblige(self, p, name, goal, line=None):
+        if getattr(self, 'qmode', None):
+            bound, guards, _pat = self.qmode
+            from z3 import ForAll
+            goal = ForAll(bound, Implies(And(*guards), goal))
+            name = 'comprehension:' + name
         g = simplify(goal) if not isinstance(goal, bool) else BoolVal(goal)
         if is_true(g):
             self.obls.append((f'{self.qual}#{name}', [], BoolVal(True), dict(line=line, trivial=True)))
@@ -197,6 +219,16 @@ class Exec:
         self.obls.append((f'{self.qual}#{name}', list(p.pc), goal, dict(line=line, trace=list(p.trace))))
 
     # ------------------------------------------------------------------ helpers
+    def assume(self, p, fact):
+        """add a fact that holds on the continuing path (e.g. key present, else the KeyError obligation fails)"""
+        q = getattr(self, 'qmode', None)
+        if q:
+            from z3 import ForAll
+            bound, guards, pat = q
+            p.pc.append(ForAll(bound, Implies(And(*guards), fact), patterns=[pat] if pat is not None else []))
+        else:
+            p.pc.append(fact)
+
     def name_it(self, p, z, hint='k'):
         """give a compound term a name (fresh constant + equation) so that array stores stay pattern-friendly"""
         if z.num_args() == 0:
@@ -442,10 +474,13 @@ class Exec:
                 key = self.ev(e.slice, p)
                 return self.read_field(S, base.attr, key, p, e.lineno)
         v = self.ev(base, p)
+        if isinstance(v, FieldV):
+            return self.read_field(p.mgrs[v.mkey], v.attr, self.ev(e.slice, p), p, e.lineno)
         if isinstance(v, DictV):
             key = self.ev(e.slice, p)
             kz = key.z if v.kkind == 'name' else (self.as_fork(key, p) if v.kkind == 'fork' else zint(key, self, p))
             self.oblige(p, f'keyerror:{ast.unparse(base)}@{e.lineno}', v.has[kz], e.lineno)
+            self.assume(p, v.has[kz])     # otherwise KeyError (obligation above); also an instantiation trigger
             return self.dict_val(v, kz)
         if isinstance(v, ListV):
             kz = zint(self.ev(e.slice, p), self, p)
@@ -472,6 +507,7 @@ class Exec:
         if attr == '_succ':
             kz = zint(key, self, p)
             self.oblige(p, f'keyerror:_succ@{line}', S.dom[kz], line)
+            self.assume(p, S.dom[kz])
             p.trace.append(('read', kz))
             return TupV([IntV(S.lvl[kz]), IntV(S.lo[kz], S.lo[kz] == 0), IntV(S.hi[kz], S.hi[kz] == 0)])
         if attr == '_ref':
@@ -482,6 +518,7 @@ class Exec:
             if not isinstance(key, NameV):
                 raise Unsupported(f'vars[non-name]@{line}')
             self.oblige(p, f'keyerror:vars@{line}', S.vin[key.z], line)
+            self.assume(p, S.vin[key.z])
             return IntV(S.v2l[key.z])
         if attr == '_level_to_var':
             kz = zint(key, self, p)
@@ -506,6 +543,8 @@ class Exec:
                 return IntV(S.lastlen, S.lastlen < 0)
             if a == '_reordering_context':
                 return BoolV(S.ctx)
+            if a in ('vars', '_level_to_var', '_succ', '_ref', '_pred'):
+                return FieldV(mv.key, a)
             if a == 'true':
                 return IntV(IntVal(1))
             if a == 'false':
@@ -515,6 +554,121 @@ class Exec:
         if isinstance(v, ObjV) and e.attr in v.attrs:
             return v.attrs[e.attr]
         raise Unsupported(f'attribute {ast.unparse(e)}@{e.lineno}')
+
+    # ------------------------------------------------------------------ comprehensions (recognised idiom)
+    def ev_DictComp(self, e, p):
+        return self.comprehension(e, p, e.key, e.value)
+
+    def ev_SetComp(self, e, p):
+        return self.comprehension(e, p, e.elt, None)
+
+    def comprehension(self, e, p, key_expr, val_expr):
+        """`{LEVEL_OF(x): V(x) for x in NAMES if C(x)}` where LEVEL_OF(x) is the level of name x in some manager.
+        The result is defined through the inverse of that bijection (W8): entry at level l exists iff l carries a
+        name that is in NAMES and satisfies C; its value is V of that name. Obligations met while evaluating the
+        element expressions are proved for *every* element."""
+        from z3 import ForAll, Int
+        if len(e.generators) != 1 or e.generators[0].is_async or len(e.generators[0].ifs) > 1:
+            raise Unsupported(f'comprehension shape@{e.lineno}')
+        gen = e.generators[0]
+        it = gen.iter
+        # iteration domain
+        valvar = None
+        if isinstance(gen.target, ast.Name):
+            var = gen.target.id
+        elif isinstance(gen.target, ast.Tuple) and len(gen.target.elts) == 2 and all(isinstance(x, ast.Name) for x in gen.target.elts):
+            var, valvar = gen.target.elts[0].id, gen.target.elts[1].id
+        else:
+            raise Unsupported(f'comprehension target@{e.lineno}')
+        if isinstance(it, ast.Call) and isinstance(it.func, ast.Attribute) and it.func.attr == 'items' and not it.args:
+            src = self.ev(it.func.value, p)
+            if not (isinstance(src, DictV) and src.kkind == 'name') or valvar is None:
+                raise Unsupported(f'comprehension over items of non-name dict@{e.lineno}')
+            domp = lambda nm: src.has[nm]  # noqa
+            valof = lambda nm: self.dict_val(src, nm)  # noqa
+        elif isinstance(it, ast.Attribute) and it.attr == 'vars' and self.mgr_of_expr(it.value, p) is not None and valvar is None:
+            Sd = p.mgrs[self.mgr_of_expr(it.value, p).key]
+            domp = lambda nm: Sd.vin[nm]  # noqa
+            valof = None
+        else:
+            raise Unsupported(f'comprehension iterable {ast.unparse(it)}@{e.lineno}')
+        # which manager's levels are the keys? evaluate the key with a free name
+        probe = fresh('cn', M.Name)
+        saved = dict(p.env)
+        sq = getattr(self, 'qmode', None)
+        nobl = len(self.obls)
+        nside = len(self.side_paths)
+        p.env[var] = NameV(probe)
+        if valvar:
+            p.env[valvar] = valof(probe)
+        self.qmode = ([probe], [BoolVal(False)], None)
+        npc = len(p.pc)
+        try:
+            kt = self.ev(key_expr, p)
+        finally:
+            self.qmode = sq
+        newfacts = p.pc[npc:]
+        del p.pc[npc:]
+        del self.obls[nobl:]
+        del self.side_paths[nside:]
+        Sk = None
+
+        def level_lookup(t):
+            if z3.is_select(t) and t.arg(1).eq(probe):
+                for S in p.mgrs.values():
+                    if t.arg(0).eq(S.v2l):
+                        return S
+            return None
+        if isinstance(kt, IntV):
+            Sk = level_lookup(kt.z)
+            if Sk is None:
+                # result of a contracted call whose postcondition says `r == v2l[name]`
+                todo = list(newfacts)
+                while todo and Sk is None:
+                    f_ = todo.pop()
+                    if z3.is_and(f_):
+                        todo += f_.children()
+                    elif z3.is_eq(f_) and f_.arg(0).eq(kt.z):
+                        Sk = level_lookup(f_.arg(1))
+        if Sk is None:
+            p.env.clear(); p.env.update(saved)
+            raise Unsupported(f'comprehension key is not a level lookup@{e.lineno}')
+        L = Int(f'L!{next(M._cnt)}')
+        nm = Sk.l2v[L]
+        p.env[var] = NameV(nm)
+        if valvar:
+            p.env[valvar] = valof(nm)
+        guards = [Sk.lin[L], domp(nm)]
+        has = fresh('cmp_has', ArraySort(I, B))
+        self.qmode = ([L], guards, has[L])
+        try:
+            nside = len(self.side_paths)
+            if gen.ifs:
+                cnd = truth(self.ev(gen.ifs[0], p))
+                guards.append(cnd)
+            self.ev(key_expr, p)    # its obligations (declared name etc.) for every element
+            vterm = self.ev(val_expr, p) if val_expr is not None else None
+            # an element expression that could raise makes the comprehension raise: must be impossible
+            for q in self.side_paths[nside:]:
+                self.oblige(p, f'element-cannot-raise:{q.exc}@{e.lineno}', Not(q.when), e.lineno)
+            del self.side_paths[nside:]
+        finally:
+            self.qmode = sq
+            p.env.clear(); p.env.update(saved)
+        member = And(*guards)
+        p.pc.append(ForAll([L], has[L] == member, patterns=[has[L]]))
+        if val_expr is None:
+            self.assumed_builtins.add('set/dict comprehension over declared names = image under the name<->level bijection (W8)')
+            return SetV(has)
+        if isinstance(vterm, BoolV):
+            val = fresh('cmp_val', ArraySort(I, B)); vk = 'bool'; vz = vterm.z
+        elif isinstance(vterm, IntV):
+            val = fresh('cmp_val', ArraySort(I, I)); vk = 'int'; vz = vterm.z
+        else:
+            raise Unsupported(f'comprehension value kind@{e.lineno}')
+        p.pc.append(ForAll([L], Implies(has[L], val[L] == vz), patterns=[has[L], val[L]]))
+        self.assumed_builtins.add('set/dict comprehension over declared names = image under the name<->level bijection (W8)')
+        return DictV(has, val, vk, 'int')
 
     # ------------------------------------------------------------------ calls
     def ev_Call(self, e, p):
@@ -733,6 +887,15 @@ class Exec:
         except Unsupported:
             return NotImplemented
         args = [self.ev(a, p) for a in e.args]
+        if isinstance(v, DictV) and meth == 'get' and len(args) == 2:
+            kz = args[0].z if v.kkind == 'name' else zint(args[0], self, p)
+            r = self.dict_val(v, kz)
+            d = args[1]
+            if isinstance(r, NameV) and isinstance(d, NameV):
+                return NameV(If(v.has[kz], r.z, d.z))
+            if isinstance(r, IntV) and isinstance(d, IntV):
+                return IntV(If(v.has[kz], r.z, d.z), If(v.has[kz], BoolVal(False), is_none(d)))
+            raise Unsupported('dict.get default kind')
         if isinstance(v, DictV) and meth == 'get' and len(args) == 1:
             kz = args[0].z if v.kkind == 'name' else (self.as_fork(args[0], p) if v.kkind == 'fork' else zint(args[0], self, p))
             r = self.dict_val(v, kz)
@@ -744,6 +907,7 @@ class Exec:
         if isinstance(v, SetV) and meth == 'add' and len(args) == 1:
             kz = args[0].z if v.kkind == 'name' else zint(args[0], self, p)
             v.has = Store(v.has, self.name_it(p, kz, 'sk'), True)
+            v._ne = BoolVal(True)
             return NONE()
         return NotImplemented
 
@@ -798,10 +962,15 @@ class Exec:
             # (no exceptional post: state unchanged, q keeps its own copy of the entry state)
             q.status, q.exc, q.line = 'raise', exc, line
             q.exc_from = qual
+            q.when = w
             self.side_paths.append(q)
             if rs.must:
                 p.pc.append(Not(w))
         # normal outcome
+        if getattr(c, 'pure', None) is not None:
+            return c.pure(ctx)      # side-effect free accessor whose value is a term of the state (no fresh symbol)
+        if getattr(self, 'qmode', None):
+            raise Unsupported(f'call to {qual} inside a comprehension@{line}')
         S1 = State(base=S0, modifies=c.modifies) if (c.modifies and S0 is not None) else S0
         ret, rz = self.fresh_ret(c)
         muts = {}
@@ -983,6 +1152,7 @@ class Exec:
                 kz = key.z if base.kkind == 'name' else (self.as_fork(key, p) if base.kkind == 'fork' else zint(key, self, p))
                 kz = self.name_it(p, kz, 'dk')
                 base.has = Store(base.has, kz, True)
+                base._ne = BoolVal(True)
                 if base.vkind == 'bool':
                     base.val = Store(base.val, kz, truth(val))
                 elif base.vkind == 'name':
@@ -1296,7 +1466,41 @@ class Exec:
         return c.post(Ctx(obj=obj, args=args, path=p, ex=self, mgrs=p.mgrs))
 
     def st_Try(self, st, p):
-        raise Unsupported(f'try@{st.lineno}')
+        if st.orelse:
+            raise Unsupported(f'try/else@{st.lineno}')
+        sides = list(self.side_paths)
+        self.side_paths = []
+        body = self.run_block(st.body, [p])
+        self.side_paths = sides
+        out = []
+        for q in body:
+            if q.status == 'raise' and st.handlers:
+                handled = False
+                for h in st.handlers:
+                    names = [] if h.type is None else ([ast.unparse(x).split('.')[-1] for x in h.type.elts]
+                                                       if isinstance(h.type, ast.Tuple) else [ast.unparse(h.type).split('.')[-1]])
+                    if h.type is None or q.exc in names or 'Exception' in names:
+                        if h.name:
+                            raise Unsupported(f'except ... as@{st.lineno}')
+                        q.status, q.exc = 'run', None
+                        out += self.run_block(h.body, [q])
+                        handled = True
+                        break
+                if not handled:
+                    out.append(q)
+            else:
+                out.append(q)
+        if st.finalbody:
+            fin = []
+            for q in out:
+                saved = (q.status, q.value, q.exc, q.line, getattr(q, 'exc_from', None))
+                q.status = 'run'
+                for r in self.run_block(st.finalbody, [q]):
+                    if r.status == 'run':
+                        r.status, r.value, r.exc, r.line, r.exc_from = saved
+                    fin.append(r)
+            out = fin
+        return out
 
     def st_FunctionDef(self, st, p):
         p.env[st.name] = ObjV('closure', dict(node=st))
